@@ -500,6 +500,17 @@ def g6(prog: Program, chk: Check) -> None:
             f"{len(sites)} on recorded times", True, "")
 
 
+def g7(prog: Program, chk: Check) -> None:
+    chk.rule("G7", "a computation stops at the requested grid point wherever it starts from: every "
+             "stepping call of a front-end compute() is control dependent on a condition that "
+             "depends on the CURRENT step and on the target (range(target - step), while step < "
+             "target) - a count taken from the step the object was initialised with makes a second "
+             "compute() run past the requested end time and return times beyond the grid "
+             "(same analysis as C14 T1)", floor=5)
+    from rules import c14
+    c14.guarded_stepping(prog, chk, "G7")
+
+
 def run(prog: Program, chk: Check) -> None:
     chk.explanation = (
         "Decides how floats become step counts and the polynomial form of every time label: "
@@ -517,3 +528,4 @@ def run(prog: Program, chk: Check) -> None:
     chk.call(g4, prog, chk)
     chk.call(g5, prog, chk)
     chk.call(g6, prog, chk)
+    chk.call(g7, prog, chk)
